@@ -26,7 +26,7 @@ RULE = (
     "generator runs under an owned `random`, so EVERY instance it can emit is an episode "
     "(for several constructor-time draws); after every reset the inner environment must carry "
     "the constructor's configuration, observations must be in the padded space with padding "
-    "True / -1 at the end, instances inside the generator's ranges. Case = one action sequence "
+    "True / -1 at the end (edges, removed-node mask and the rows of every feature matrix beyond the current instance), instances inside the generator's ranges. Case = one action sequence "
     "/ one generated episode; non-trivial = >= 2 steps involving >= 2 jobs."
 )
 ASSUMPTIONS = [
